@@ -32,9 +32,48 @@ func Refused(v *vrt.Ctx) []byte {
 	for _, b := range in {
 		v.Assume(b != '{')
 	}
-	_, err := vm.ValidInput(in)
-	v.Assume(err != nil)
+	// refused by the documented format (the reference below), not by asking
+	// the code under test: that the engine does refuse it is asserted
+	v.Assume(!DocumentedFormat(v, in))
 	return in
+}
+
+// DocumentedFormat is the default input format as documented
+// (/^\+?[a-zA-Z0-9].*$/ in Go regexp syntax, no flags): an optional '+', one
+// letter or digit, then any bytes but LF ('.' does not match a line feed and
+// '$' only the end of the text). No other validator is registered here.
+func DocumentedFormat(v *vrt.Ctx, in []byte) bool {
+	alnum := func(c byte) bool {
+		return v.Or(v.And(c >= '0', c <= '9'), v.Or(v.And(c >= 'a', c <= 'z'), v.And(c >= 'A', c <= 'Z')))
+	}
+	rest := func(from int) bool {
+		ok := true
+		for _, c := range in[from:] {
+			ok = v.And(ok, c != '\n')
+		}
+		return ok
+	}
+	if len(in) == 0 {
+		return false
+	}
+	plain := v.And(alnum(in[0]), rest(1))
+	if len(in) == 1 {
+		return plain
+	}
+	return v.Or(plain, v.And(in[0] == '+', v.And(alnum(in[1]), rest(2))))
+}
+
+// Format: vm.ValidInput accepts exactly the documented format, for every
+// byte string of the given length.
+func Format(v *vrt.Ctx) {
+	in := v.Bytes("input", v.Param("len"))
+	_, err := vm.ValidInput(in)
+	v.Assert((err == nil) == DocumentedFormat(v, in), "C17/input-check-is-the-documented-format")
+	if err == nil {
+		v.Cover("C17/format-accepts")
+	} else {
+		v.Cover("C17/format-refuses")
+	}
 }
 
 func long(n int) []byte {
@@ -205,4 +244,5 @@ func FlushFirst(v *vrt.Ctx) {
 var Harnesses = map[string]func(*vrt.Ctx){
 	"TwoRun":     TwoRun,
 	"FlushFirst": FlushFirst,
+	"Format":     Format,
 }
